@@ -151,12 +151,19 @@ func Bounded(w *vt.W, rng *rand.Rand, nm, maxLen int) {
 			gaps = []int{-4, -1, 0}
 		}
 		sym := rng.Intn(2) == 0 && k%3 != 2
+		pairing := k%4 == 1 // a letter scores no better against itself than against another letter (base pairing)
 		m := matrix(5, func(i, j int) int {
 			if i == 0 && j == 0 {
 				return 0
 			}
 			if i == 0 || j == 0 {
 				return gaps[rng.Intn(3)]
+			}
+			if pairing {
+				if i == j {
+					return []int{-2, -1, 0}[rng.Intn(3)]
+				}
+				return []int{-1, 1, 2}[rng.Intn(3)]
 			}
 			return subs[rng.Intn(4)]
 		})
